@@ -9,25 +9,29 @@ step*, because done-callbacks are awaited inside it:
 
 ```
 finally:
-    if task in cls.task2cb:
-        for callback, info in cls.task2cb[task]["cb"].items():     -- `cbBegin t` … `cbEnd t r`, per iteration
-            try:    await ast_ctx.call_func(callback, None, *args, **kwargs)
-            except Exception as e: ast_ctx.log_exception(e); break  -- r = raises: the loop stops here
-                                                                    -- r = cancelled: CancelledError is not an
-                                                                    --   Exception: it leaves the finally at once
-    (release unique names; task2context.pop; task2cb.pop; our_tasks.discard)   -- `cleanup t`
+    try:
+        if task in cls.task2cb:
+            for callback, info in list(cls.task2cb[task]["cb"].items()):   -- `cbBegin t` … `cbEnd t r`, per iteration
+                try:    await ast_ctx.call_func(callback, None, *args, **kwargs)
+                except Exception as e: ast_ctx.log_exception(e)             -- r = raises: logged, the loop goes on
+                                                                            -- r = cancelled: CancelledError is not an
+                                                                            --   Exception: it leaves the loop (`bail`)
+    finally:
+        (release unique names; task2context.pop; task2cb.pop; our_tasks.discard)   -- `finish`, also after `bail`
 ```
 
-The dict iterator raises `RuntimeError: dictionary changed size during iteration` when a callback was added to /
-removed from the task while the loop runs; that error, like a cancellation delivered inside a callback, leaves the
-`finally` without running the clean-up (`abort`).
+This is the code after the `fix:` commits e4231d2 / 83f57a2 / f683cd7 (`current`).  The shape before them is kept as
+the configuration `preFix` (`Cfg`): `break` after a raising callback, iteration over the live dict (whose iterator
+raises `RuntimeError: dictionary changed size during iteration` when a callback resizes it), and no inner
+`try … finally`, so that an exception leaving the loop skipped the clean-up (`abort`).
 
 Atomic steps (`Op`): `create` (`Function.create_task`, with the immediate `task_done_callback_ctx` done by
 `call_action` / `dispatch` / `task.create`), `start` (first segment of `run_coro`), `storeCtx`
 (`store_hass_context`), `addCb` / `removeCb` (`task.add_done_callback` – one entry per callback function, a second
 add replaces the arguments and keeps the position – / `task.remove_done_callback`), `cancel` (`task.cancel`),
 `unique`, `reap` (C13), `endBody t oc` (the awaited coroutine returns, raises, or a delivered cancel is thrown into it),
-`cbBegin` / `cbEnd`, `cleanup`.  Ghost fields (`ran`, `atEnd`, `touched`, `leaked`, `cbRaised`, `errs`) record history only.
+`cbBegin` / `cbEnd`, `cleanup`.  Ghost fields (`ran`, `touched`, `leaked`, `cbRaised`, `bailed`, `errs`) record history
+only (`atEnd` is the snapshot the repaired loop iterates over).
 -/
 namespace PsModel.C14
 open PsModel.C13 (Task upd)
@@ -69,6 +73,8 @@ structure St (κ : Type) where
   touched  : Task → Bool                         -- ghost: add/remove on a task whose finally is running
   leaked   : Task → Bool                         -- ghost: the finally was left without the clean-up
   cbRaised : Task → Bool                         -- ghost: one of its callbacks raised
+  bailed   : Task → Option Res                   -- ghost: an exception (CancelledError inside a callback /
+                                                 --   RuntimeError of the dict iterator) left the callback loop
   errs     : Nat                                 -- ghost: number of KeyError/TypeError raised by the API calls
 
 inductive Op (κ : Type) where
@@ -85,13 +91,27 @@ inductive Op (κ : Type) where
   | cbEnd (t : Task) (r : CbRes)
   | cleanup (t : Task)
 
-/-- deviation flag (DESIGN §4): `cbContinues = false` is the code as it is today (`break` after a callback that
-raised, finding #19); `true` is the repaired loop (`continue`). -/
+/-- deviation flags (DESIGN §4): every flag is `false` for the code as it was when this model was first written
+(`preFix`) and `true` for the repaired code (`current`):
+
+* `cbContinues`   – /repo e4231d2: a done-callback that raises is logged and the loop goes on (was: `break`, #19)
+* `snapshotIter`  – /repo 83f57a2: the loop iterates over `list(task2cb[task]["cb"].items())` (was: over the live
+                    dict, whose iterator raises `RuntimeError` when a callback resizes it)
+* `cleanupAlways` – /repo f683cd7: the callback loop sits in an inner `try`, the registries are released in its
+                    `finally` (was: an exception leaving the loop skipped the clean-up)
+* `svcCtx`        – /repo 48c341a, a0b69d9: `@service` tasks are created with `ast_ctx=` and therefore get a
+                    `task2cb` entry (was: no entry, `task.add_done_callback` inside a service raised KeyError, #24) -/
 structure Cfg where
   cbContinues : Bool
+  snapshotIter : Bool
+  cleanupAlways : Bool
+  svcCtx : Bool
 
-/-- the code as it is -/
-def current : Cfg := { cbContinues := false }
+/-- the code as it is now -/
+def current : Cfg := { cbContinues := true, snapshotIter := true, cleanupAlways := true, svcCtx := true }
+
+/-- the code before the `fix:` commits (kept for the regression theorems) -/
+def preFix : Cfg := { cbContinues := false, snapshotIter := false, cleanupAlways := false, svcCtx := false }
 
 variable {κ : Type} [DecidableEq κ]
 
@@ -100,7 +120,7 @@ def init : St κ :=
     outcome := fun _ => none, idx := fun _ => 0, iterSize := fun _ => 0, loopDone := fun _ => false,
     inCb := fun _ => false,
     result := fun _ => none, ran := [], atEnd := fun _ => [], touched := fun _ => false, leaked := fun _ => false,
-    cbRaised := fun _ => false, errs := 0 }
+    cbRaised := fun _ => false, bailed := fun _ => none, errs := 0 }
 
 /-- `task_done_callback_ctx`: create the entry unless there is one -/
 def ensureEntry (cb : Task → Option (List (Cb × Args))) (t : Task) : Task → Option (List (Cb × Args)) :=
@@ -113,6 +133,9 @@ def createStep (s : St κ) (t : Task) (wc pre : Bool) : St κ :=
   if s.phase t ≠ .none then s else
   { s with phase := upd s.phase t .created, withCtx := upd s.withCtx t wc,
            cb := if pre then ensureEntry s.cb t else s.cb }
+
+/-- the task an `@service` call creates (`pyscript_service_handler` / `ServiceDecorator`) -/
+def createService (cfg : Cfg) (s : St κ) (t : Task) : St κ := createStep s t cfg.svcCtx false
 
 /-- first segment of `run_coro`: `our_tasks.add(task)`, `task_done_callback_ctx` when an ast_ctx was given -/
 def startStep (s : St κ) (t : Task) : St κ :=
@@ -182,28 +205,41 @@ def resultOf : Option Outcome → Res
   | some .cancelled => .cancelled
   | none => .noneVal
 
-/-- has the loop got another callback to run? -/
-def loopPending (s : St κ) (t : Task) : Bool :=
-  match s.cb t with
-  | none => false
-  | some l => !s.loopDone t && s.idx t < l.length
+/-- the clean-up block: release unique names, pop `task2context`, `task2cb`, `our_tasks`; the task ends with `r` -/
+def finish (s : St κ) (t : Task) (r : Res) : St κ :=
+  { s with u := C13.exitStep s.u t, hctx := upd s.hctx t false, cb := upd s.cb t none,
+           phase := upd s.phase t .done, result := upd s.result t (some r) }
 
-/-- one `next()` of the dict iterator (size check) and the start of the callback it yields -/
-def cbBeginStep (s : St κ) (t : Task) : St κ :=
+/-- an exception leaves the callback loop: with the inner `try … finally` the clean-up still runs -/
+def bail (cfg : Cfg) (s : St κ) (t : Task) (r : Res) : St κ :=
+  if cfg.cleanupAlways then finish { s with bailed := upd s.bailed t (some r) } t r
+  else abort { s with bailed := upd s.bailed t (some r) } t r
+
+/-- what the loop iterates over: the snapshot taken when the body ended, or the live dict (no entry = nothing) -/
+def iterList (cfg : Cfg) (s : St κ) (t : Task) : List (Cb × Args) :=
+  if cfg.snapshotIter then s.atEnd t else cbList s t
+
+/-- has the loop got another callback to run? -/
+def loopPending (cfg : Cfg) (s : St κ) (t : Task) : Bool :=
+  !s.loopDone t && s.idx t < (iterList cfg s t).length
+
+/-- the live-dict iterator finds the dict resized (`RuntimeError: dictionary changed size during iteration`) -/
+def resized (cfg : Cfg) (s : St κ) (t : Task) : Bool :=
+  !cfg.snapshotIter && (cbList s t).length != s.iterSize t
+
+/-- one `next()` of the iterator and the start of the callback it yields -/
+def cbBeginStep (cfg : Cfg) (s : St κ) (t : Task) : St κ :=
   if s.phase t ≠ .finalizing then s else
   if s.inCb t then s else
-  match s.cb t with
+  if s.loopDone t then s else
+  if resized cfg s t then bail cfg s t .error else
+  match (iterList cfg s t)[s.idx t]? with
   | none => s
-  | some l =>
-    if s.loopDone t then s else
-    if l.length ≠ s.iterSize t then abort s t .error else
-    match l[s.idx t]? with
-    | none => s
-    | some (c, a) =>
-      { s with ran := s.ran ++ [(t, c, a)], idx := upd s.idx t (s.idx t + 1), inCb := upd s.inCb t true }
+  | some (c, a) =>
+    { s with ran := s.ran ++ [(t, c, a)], idx := upd s.idx t (s.idx t + 1), inCb := upd s.inCb t true }
 
-/-- the awaited callback returns, raises an `Exception` (`log_exception; break`), or a `CancelledError` is thrown
-into it (not an `Exception`: it leaves the `finally`) -/
+/-- the awaited callback returns, raises an `Exception` (logged; `continue`, formerly `break`), or a `CancelledError`
+is thrown into it (not an `Exception`: it leaves the loop) -/
 def cbEndStep (cfg : Cfg) (s : St κ) (t : Task) (r : CbRes) : St κ :=
   if s.phase t ≠ .finalizing then s else
   if !s.inCb t then s else
@@ -212,22 +248,18 @@ def cbEndStep (cfg : Cfg) (s : St κ) (t : Task) (r : CbRes) : St κ :=
   | .raises =>
     if cfg.cbContinues then { s with inCb := upd s.inCb t false, cbRaised := upd s.cbRaised t true }
     else { s with inCb := upd s.inCb t false, loopDone := upd s.loopDone t true, cbRaised := upd s.cbRaised t true }
-  | .cancelled => abort { s with inCb := upd s.inCb t false } t .cancelled
+  | .cancelled => bail cfg { s with inCb := upd s.inCb t false } t .cancelled
 
-/-- the final `next()` of the dict iterator finds the dict resized -/
-def sizeChanged (s : St κ) (t : Task) : Bool :=
-  match s.cb t with
-  | some l => !s.loopDone t && l.length != s.iterSize t
-  | none => false
+/-- the final `next()` of a live-dict iterator finds the dict resized -/
+def sizeChanged (cfg : Cfg) (s : St κ) (t : Task) : Bool := !s.loopDone t && resized cfg s t
 
-/-- the rest of the `finally` (after the final `next()` of the iterator, which also checks the size) -/
-def cleanupStep (s : St κ) (t : Task) : St κ :=
+/-- the rest of the `finally` after the loop -/
+def cleanupStep (cfg : Cfg) (s : St κ) (t : Task) : St κ :=
   if s.phase t ≠ .finalizing then s else
   if s.inCb t then s else
-  if loopPending s t then s else
-  if sizeChanged s t then abort s t .error else
-  { s with u := C13.exitStep s.u t, hctx := upd s.hctx t false, cb := upd s.cb t none,
-           phase := upd s.phase t .done, result := upd s.result t (some (resultOf (s.outcome t))) }
+  if loopPending cfg s t then s else
+  if sizeChanged cfg s t then bail cfg s t .error else
+  finish s t (resultOf (s.outcome t))
 
 def step (cfg : Cfg) (s : St κ) : Op κ → St κ
   | .create t wc pre => createStep s t wc pre
@@ -239,9 +271,9 @@ def step (cfg : Cfg) (s : St κ) : Op κ → St κ
   | .unique t k km => uniqueStep s t k km
   | .reap => { s with u := C13.reapStep s.u }
   | .endBody t oc => endBodyStep s t oc
-  | .cbBegin t => cbBeginStep s t
+  | .cbBegin t => cbBeginStep cfg s t
   | .cbEnd t r => cbEndStep cfg s t r
-  | .cleanup t => cleanupStep s t
+  | .cleanup t => cleanupStep cfg s t
 
 def run (cfg : Cfg) (ops : List (Op κ)) : St κ := ops.foldl (step cfg) init
 
